@@ -583,6 +583,14 @@ def local_value(fn, name, before=None):
             for t in n.targets:
                 if isinstance(t, ast.Name) and t.id == name:
                     vals.append(n.value)
+                elif isinstance(t, (ast.Tuple, ast.List)):
+                    # a, b = x, y  binds element-wise; any other unpacking makes the value unknown
+                    for i, e in enumerate(t.elts):
+                        if isinstance(e, ast.Name) and e.id == name:
+                            if isinstance(n.value, (ast.Tuple, ast.List)) and len(n.value.elts) == len(t.elts) and not any(isinstance(x, ast.Starred) for x in n.value.elts):
+                                vals.append(n.value.elts[i])
+                            else:
+                                vals.append(None)
         elif isinstance(n, (ast.AugAssign, ast.AnnAssign)) and isinstance(n.target, ast.Name) and n.target.id == name:
             vals.append(getattr(n, "value", None))
     return vals[0] if len(vals) == 1 else None
